@@ -401,6 +401,7 @@ func runC12(r *common.Rand, tier string, o *common.Out, replay string) {
 			kind = "wrr"
 		}
 		var ops []c12op
+		var prevSrv [][2]string
 		steps := 1 + r.Intn(5)
 		for s := 0; s < steps; s++ {
 			n := r.Intn(7)
@@ -414,6 +415,19 @@ func runC12(r *common.Rand, tier string, o *common.Out, replay string) {
 			}
 			var srv [][2]string
 			W := 0
+			if s > 0 && len(prevSrv) > 0 && r.Chance(40) {
+				// the same servers are announced again; only the metadata of some of them changes: a weight is
+				// changed, dropped, left empty or made unreadable (then the server weighs 1 again)
+				n = 0
+				for _, ps := range prevSrv {
+					meta := ps[1]
+					if kind == "wrr" && r.Chance(50) {
+						meta = []string{"", "weight=", "weight=abc", "x=1", fmt.Sprintf("weight=%d", r.Intn(6)), "weight=1"}[r.Intn(6)]
+					}
+					W += effWeight(meta)
+					srv = append(srv, [2]string{ps[0], meta})
+				}
+			}
 			for i := 0; i < n; i++ {
 				meta := ""
 				if kind == "wrr" {
@@ -430,8 +444,9 @@ func runC12(r *common.Rand, tier string, o *common.Out, replay string) {
 				srv = append(srv, [2]string{perm[i], meta})
 			}
 			ops = append(ops, c12op{update: true, servers: srv})
+			prevSrv = srv
 			if kind == "rr" {
-				W = n
+				W = len(srv)
 			}
 			nruns := 1 + r.Intn(2)
 			for k := 0; k < nruns; k++ {
